@@ -1,7 +1,267 @@
 import Aqv.Base.Proto
-open Aqv Aqv.Proto
+import Aqv.Base.Keccak
+import Aqv.Model.Net
+open Aqv Aqv.Proto Aqv.Net
 
-/-- stub driver for C17 (answers every case line with "bad-op"); replaced when the property is built. -/
-def handle (l : String) : String := let _ := l; "bad-op\tagree"
+/-! Model driver for C17. Case kinds (see go/harness/cmd/c17):
+  disc <nc> <packet> <rec>                       decodePacket; rec = recovered NodeID hex | e (recovery error) | x (not consulted)
+  enc  <nc> <type> <sig> <rendering of request>   encodePacket (signature supplied by the harness)
+  exp  <now> <ts>                                 expired
+  sess <snW> <snR> <preload> <tamper> <E> <D> <msgs>   a frame session over the toy primitives
+  hmsg <code> <size> <decodes>                    aqua handleMsg front
+  phs  <code> <size> <decodes>                    readProtocolHandshake front
+  hs   <a|r> <plainSize> <conn> <d1> <d2> <rlp>   readHandshakeMsg size logic
+-/
+
+def natOf (s : String) : Nat := s.toNat?.getD 0
+
+/-! ### rendering of discovery packets (must match the Go harness) -/
+
+def rEp (e : Endpoint) : String := hexOrDash e.ip ++ "/" ++ toString e.udp ++ "/" ++ toString e.tcp
+def rNd (n : RpcNode) : String := hexOrDash n.ip ++ "/" ++ toString n.udp ++ "/" ++ toString n.tcp ++ "/" ++ hexOrDash n.id
+def joinWith (sep : String) (xs : List String) : String :=
+  match xs with
+  | [] => "-"
+  | x :: rest => rest.foldl (fun acc y => acc ++ sep ++ y) x
+def rRest (rs : List Bytes) : String := joinWith "," (rs.map hexOrDash)
+
+def renderPacket : Packet → String
+  | .ping v s d e r => "p v=" ++ toString v ++ " src=" ++ rEp s ++ " dst=" ++ rEp d ++ " exp=" ++ toString e ++ " rest=" ++ rRest r
+  | .pong d t e r => "o dst=" ++ rEp d ++ " tok=" ++ hexOrDash t ++ " exp=" ++ toString e ++ " rest=" ++ rRest r
+  | .findnode t e r => "f target=" ++ hexOrDash t ++ " exp=" ++ toString e ++ " rest=" ++ rRest r
+  | .neighbors ns e r => "n nodes=" ++ joinWith ";" (ns.map rNd) ++ " exp=" ++ toString e ++ " rest=" ++ rRest r
+
+def renderDecoded (d : Decoded) : String :=
+  "ok id=" ++ hexOrDash d.from_ ++ " h=" ++ hexOrDash d.hash ++ " " ++ renderPacket d.pkt
+
+/-! ### parsing of a request rendering (for `enc`) -/
+
+def parseEp (s : String) : Option Endpoint :=
+  match s.splitOn "/" with
+  | [ip, u, t] => (bytesOfHex ip).map (fun b => { ip := b, udp := natOf u, tcp := natOf t })
+  | _ => none
+def parseNd (s : String) : Option RpcNode :=
+  match s.splitOn "/" with
+  | [ip, u, t, id] =>
+    match bytesOfHex ip, bytesOfHex id with
+    | some b, some i => some { ip := b, udp := natOf u, tcp := natOf t, id := i }
+    | _, _ => none
+  | _ => none
+def parseList {α : Type} (sep : String) (f : String → Option α) (s : String) : Option (List α) :=
+  if s = "-" then some [] else (s.splitOn sep).mapM f
+def kv (key : String) (fs : List String) : Option String :=
+  fs.findSome? (fun f => if f.startsWith (key ++ "=") then some (strDrop f (key.length + 1)) else none)
+
+def parsePacket (fs : List String) : Option Packet :=
+  match fs with
+  | "p" :: r => do
+    let v ← kv "v" r; let s ← (kv "src" r).bind parseEp; let d ← (kv "dst" r).bind parseEp
+    let e ← kv "exp" r; let rest ← (kv "rest" r).bind (parseList "," bytesOfHex)
+    some (.ping (natOf v) s d (natOf e) rest)
+  | "o" :: r => do
+    let d ← (kv "dst" r).bind parseEp; let t ← (kv "tok" r).bind bytesOfHex
+    let e ← kv "exp" r; let rest ← (kv "rest" r).bind (parseList "," bytesOfHex)
+    some (.pong d t (natOf e) rest)
+  | "f" :: r => do
+    let t ← (kv "target" r).bind bytesOfHex
+    let e ← kv "exp" r; let rest ← (kv "rest" r).bind (parseList "," bytesOfHex)
+    some (.findnode t (natOf e) rest)
+  | "n" :: r => do
+    let ns ← (kv "nodes" r).bind (parseList ";" parseNd)
+    let e ← kv "exp" r; let rest ← (kv "rest" r).bind (parseList "," bytesOfHex)
+    some (.neighbors ns (natOf e) rest)
+  | _ => none
+
+/-! ### discovery -/
+
+def discOut (nc : Bool) (buf : Bytes) (rec : String) : String :=
+  let missing := rec = "x"
+  let P : DiscPrims := { H := Keccak.keccak256, recover := fun _ _ => if rec = "e" ∨ rec = "x" then none else bytesOfHex rec }
+  match decodePacket P nc buf with
+  | .ok d => renderDecoded d
+  | .err .badSig => if missing then "oracle-missing" else "err"
+  | .err _ => "err"
+  | .panic _ => "panic"
+
+/-! ### toy primitives shared with the Go harness (`toy.go`) -/
+
+def toyAbsorb (st : UInt64 × UInt64 × UInt64 × UInt64 × Nat) (b : UInt8) : UInt64 × UInt64 × UInt64 × UInt64 × Nat :=
+  let (a0, a1, a2, a3, n) := st
+  let p : UInt64 := 0x100000001b3
+  match n % 4 with
+  | 0 => let x := (a0 ^^^ b.toUInt64) * p; (x, a1 ^^^ (x >>> 29), a2, a3, n + 1)
+  | 1 => let x := (a1 ^^^ b.toUInt64) * p; (a0, x, a2 ^^^ (x >>> 29), a3, n + 1)
+  | 2 => let x := (a2 ^^^ b.toUInt64) * p; (a0, a1, x, a3 ^^^ (x >>> 29), n + 1)
+  | _ => let x := (a3 ^^^ b.toUInt64) * p; (a0 ^^^ (x >>> 29), a1, a2, x, n + 1)
+
+def be64 (x : UInt64) : Bytes :=
+  [(x >>> 56).toUInt8, (x >>> 48).toUInt8, (x >>> 40).toUInt8, (x >>> 32).toUInt8,
+   (x >>> 24).toUInt8, (x >>> 16).toUInt8, (x >>> 8).toUInt8, x.toUInt8]
+
+def toyH (bs : Bytes) : Bytes :=
+  let o : UInt64 := 0xcbf29ce484222325
+  let (a0, a1, a2, a3, n) := bs.foldl toyAbsorb (o, o + 1, o + 2, o + 3, 0)
+  let g : UInt64 := 0x9E3779B97F4A7C15
+  let l := UInt64.ofNat n
+  be64 (a0 ^^^ (a1 * g) ^^^ l) ++ be64 (a1 ^^^ (a2 * g) ^^^ l) ++ be64 (a2 ^^^ (a3 * g) ^^^ l) ++ be64 (a3 ^^^ (a0 * g) ^^^ l)
+
+def toyE (blk : Bytes) : Bytes :=
+  (List.range 16).map (fun i =>
+    (blk.getD ((i + 5) % 16) 0 ^^^ UInt8.ofNat (0x3c + 11 * i)) + UInt8.ofNat (7 * i + 1))
+
+def toyKs (n : Nat) : UInt8 :=
+  let x : UInt64 := UInt64.ofNat n * 0x9E3779B97F4A7C15 + 0x1234567
+  ((x >>> 29) ^^^ (x >>> 47)).toUInt8
+
+/-! ### frame sessions -/
+
+def lookupE (tab : List (Bytes × Bytes)) (x : Bytes) : Bytes :=
+  match tab.find? (fun e => e.1 == x) with
+  | some e => e.2
+  | none => [0xde, 0xad]      -- oracle missing: shows up as a disagreement
+def lookupD (tab : List (Bytes × Option Nat × Option Bytes)) (x : Bytes) : Option Nat × Option Bytes :=
+  match tab.find? (fun e => e.1 == x) with
+  | some e => e.2
+  | none => (none, none)
+
+def parseE (s : String) : List (Bytes × Bytes) :=
+  if s = "-" then [] else (s.splitOn ",").filterMap (fun e =>
+    match e.splitOn ">" with
+    | [a, b] => match bytesOfHex a, bytesOfHex b with
+      | some x, some y => some (x, y)
+      | _, _ => none
+    | _ => none)
+def parseD (s : String) : List (Bytes × Option Nat × Option Bytes) :=
+  if s = "-" then [] else (s.splitOn ",").filterMap (fun e =>
+    match e.splitOn ">" with
+    | [a, l, o] => match bytesOfHex a with
+      | some x => some (x, (if l = "e" then none else some (natOf l)), (if o = "e" then none else bytesOfHex o))
+      | none => none
+    | _ => none)
+def parseMsgs (s : String) : List Msg :=
+  if s = "-" then [] else (s.splitOn ",").filterMap (fun e =>
+    match e.splitOn ":" with
+    | [c, z, p] => (bytesOfHex p).map (fun b => { code := natOf c, size := natOf z, payload := b })
+    | _ => none)
+
+def tamper (w : Bytes) (t : String) : Bytes :=
+  match t.splitOn ":" with
+  | ["flip", i, x] => let i := natOf i; match w[i]? with
+    | some b => w.set i (b ^^^ UInt8.ofNat (natOf x))
+    | none => w
+  | ["drop", i] => w.eraseIdx (natOf i)
+  | ["trunc", n] => w.take (natOf n)
+  | ["ins", i, b] => w.take (natOf i) ++ [UInt8.ofNat (natOf b)] ++ w.drop (natOf i)
+  | _ => w
+
+/-- write until the first failing message: (wire, index of the failing message) -/
+def writeSeq (P : Prims) (sn : Bool) : Dir → List Msg → Nat → Bytes → Bytes × String
+  | _, [], _, acc => (acc, "-")
+  | d, m :: ms, i, acc =>
+    match writeMsg P sn d m with
+    | .ok (d1, w) => writeSeq P sn d1 ms (i + 1) (acc ++ w)
+    | .err _ => (acc, toString i)
+    | .panic _ => (acc, "panic" ++ toString i)
+
+def renderMsg (m : Msg) : String := "ok:" ++ toString m.code ++ ":" ++ toString m.size ++ ":" ++ hexOrDash m.payload
+
+def readSeq (P : Prims) (sn : Bool) : Nat → Dir → Bytes → List String → List String
+  | 0, _, _, acc => acc.reverse
+  | f+1, d, conn, acc =>
+    match readMsg P sn d conn with
+    | .ok (d1, m, conn1) => readSeq P sn f d1 conn1 (renderMsg m :: acc)
+    | .err _ => ("err" :: acc).reverse
+    | .panic _ => ("panic" :: acc).reverse
+
+def sessOut (snW snR : Bool) (preload : Bytes) (tam : String) (eo : String) (dor : String) (ms : List Msg) : String :=
+  let et := parseE eo
+  let dt := parseD dor
+  let P : Prims := { H := toyH, E := toyE, ks := toyKs, snapEnc := lookupE et,
+                     snapLen := fun x => (lookupD dt x).1, snapDec := fun x => (lookupD dt x).2 }
+  let d0 : Dir := { mac := preload, pos := 0 }
+  let (w, werr) := writeSeq P snW d0 ms 0 []
+  let w' := tamper w tam
+  let rs := readSeq P snR (w'.length / 48 + 2) d0 w' []
+  "W " ++ hexOrDash w ++ " " ++ werr ++ " R " ++ String.intercalate ";" rs
+
+/-- Spec judgement of a Go session output: no panic; with equal snappy modes everything delivered is a prefix of what
+    was written (exact), and an untampered session delivers everything. -/
+def sessSpec (snW snR : Bool) (tam : String) (ms : List Msg) (go : String) : Bool :=
+  match go.splitOn " R " with
+  | [wpart, r] =>
+    let rs := r.splitOn ";"
+    let oks := rs.filter (fun s => s.startsWith "ok:")
+    let werr := (fields wpart).getLast?.getD "-"
+    let nwritten := if werr = "-" then ms.length else natOf werr
+    let written := (ms.take nwritten).map renderMsg
+    !(rs.any (· == "panic")) && !(werr.startsWith "panic") &&
+      (snW != snR || (oks.length ≤ written.length && oks == written.take oks.length &&
+        (tam != "none" || oks.length == written.length)))
+  | _ => false
+
+/-! ### handshake size logic -/
+
+def hsOut (isAuth : Bool) (plainSize : Nat) (conn : Bytes) (d1 d2 rlp : String) : String :=
+  let plain (s : String) : Option Bytes := if s = "x" then none else some (List.replicate (natOf s) 0)
+  let P : HsPrims := { decrypt := fun _ s2 => if s2.isEmpty then plain d1 else plain d2, decodeEip8 := fun _ => rlp = "1" }
+  match (readHandshakeMsg P isAuth plainSize conn).2 with
+  | .ok n => "ok " ++ toString n
+  | .err _ => "err"
+  | .panic _ => "panic"
+
+def classOf {α : Type} (o : Out α) : String :=
+  match o with
+  | .ok _ => "ok"
+  | .err .msgTooLarge => "toolarge"
+  | .err .extraStatus => "extrastatus"
+  | .err .invalidCode => "badcode"
+  | .err .decode => "decode"
+  | .err .discRequested => "disc"
+  | .err _ => "err"
+  | .panic _ => "panic"
+
+def handle (l : String) : String :=
+  let (inp, go) := splitCase l
+  match fields inp with
+  | ["disc", nc, hex, rec] =>
+    match bytesOfHex hex with
+    | none => "bad-op\tagree"
+    | some buf =>
+      let m := discOut (nc = "1") buf rec
+      -- Spec: never a panic; nothing is delivered that the model (hash + signature + well-formed body) rejects,
+      -- and what is delivered is exactly the authenticated content. Rejecting more is a harmless difference.
+      verdict m go (go == "err") (if go.startsWith "panic" then "panic-on-network-input" else "delivered-unauthenticated-or-different")
+  | "enc" :: nc :: ty :: sig :: rest =>
+    match bytesOfHex sig, parsePacket rest with
+    | some sg, some p =>
+      let m := match encodePacket Keccak.keccak256 (fun _ => sg) (nc = "1") (UInt8.ofNat (natOf ty)) p with
+        | .ok (pk, h) => "ok " ++ hexOrDash pk ++ " " ++ hexOrDash h
+        | .err _ => "err"
+        | .panic _ => "panic"
+      verdict m go false "encoding-differs"
+    | _, _ => "bad-op\tagree"
+  | ["exp", now, ts] =>
+    let m := if expired (natOf now) (natOf ts) then "1" else "0"
+    verdict m go false "expiry-differs"
+  | ["sess", snW, snR, pre, tam, eo, dor, msgs] =>
+    match bytesOfHex pre with
+    | none => "bad-op\tagree"
+    | some p =>
+      let ms := parseMsgs msgs
+      let m := sessOut (snW = "1") (snR = "1") p tam eo dor ms
+      verdict m go (sessSpec (snW = "1") (snR = "1") tam ms go) "frame-session-delivers-altered-or-panics"
+  | ["hmsg", code, size, dec] =>
+    let m := classOf (handleMsg (fun _ _ => dec = "1") { code := natOf code, size := natOf size, payload := List.replicate (min (natOf size) 64) 0 })
+    verdict m go (go != "panic" && (natOf size ≤ protocolMaxMsgSize || go == "toolarge")) "oversize-or-panic-in-handler"
+  | ["phs", code, size, dec] =>
+    let m := classOf (readProtoHandshake (fun _ => dec = "1") { code := natOf code, size := natOf size, payload := List.replicate (min (natOf size) 64) 0 })
+    verdict m go (go != "panic" && (natOf size ≤ baseProtocolMaxMsgSize || go == "toolarge")) "oversize-or-panic-in-proto-handshake"
+  | ["hs", k, ps, conn, d1, d2, rlp] =>
+    match bytesOfHex conn with
+    | none => "bad-op\tagree"
+    | some c =>
+      let m := hsOut (k = "a") (natOf ps) c d1 d2 rlp
+      verdict m go (go == "err") "handshake-reader"
+  | _ => "bad-op\tagree"
 
 def main : IO Unit := runLines handle
